@@ -13,6 +13,11 @@ ACTS = list(Action)
 TNAMES = ['move_agent', 'turn_agent', 'pickndrop', 'move_obstacles', 'actuate_door', 'actuate_box', 'teleport']
 
 
+def _np_legacy_state():
+    st = np.random.get_state()
+    return (st[0], st[1].tobytes(), st[2], st[3], st[4])
+
+
 class Journal:
     """merged, ordered log of the draws made on the environment's and on the library-level generator"""
 
@@ -29,13 +34,29 @@ class Journal:
         self.own.tape = self.glob.tape = self.tape
 
     def __enter__(self):
+        import random
         self.saved = gvrng._gv_rng
         gvrng._gv_rng = self.glob
+        self._np0 = _np_legacy_state()
+        self._py0 = random.getstate()
+        self.touched = []
         return self
 
     def __exit__(self, *exc):
+        import random
+        # the process-wide generators a seeded component must never touch (C02): numpy's legacy global, python's `random`, and the
+        # library-level generator object itself (a component calling reset_gv_rng() would replace the proxy)
+        if _np_legacy_state() != self._np0:
+            self.touched.append('numpy.random (legacy global state)')
+        if random.getstate() != self._py0:
+            self.touched.append('random (python global state)')
+        if gvrng._gv_rng is not self.glob:
+            self.touched.append('gym_gridverse.rng._gv_rng was replaced')
         gvrng._gv_rng = self.saved
         return False
+
+    def global_draws(self):
+        return [e for e in self.log if e[0] == 1]
 
 
 def run_transition(names, cs, action, own, seed=0, script=None):
